@@ -300,6 +300,26 @@ pub fn c13_cases(quick: bool) -> Vec<SCase> {
     out
 }
 
+/// Terms written with `lterm!` and compared structurally with the builder's term (C14).
+pub fn c14_lterm_terms() -> Vec<T> {
+    let lits: Vec<T> = vec![T::I(0), T::I(7), T::B(true), T::B(false), T::C('c'), T::S("s".into()), T::S("".into())];
+    let mut terms: Vec<T> = lits.clone();
+    terms.extend(vec![T::Nil, T::W, q(), r()]);
+    let items: Vec<T> = lits.iter().cloned().chain(vec![T::Nil, T::W, q(), r(), T::list(vec![T::I(1)]), T::cons(q(), r())]).collect();
+    for a in &items {
+        terms.push(T::list(vec![a.clone()]));
+        for b in &items {
+            terms.push(T::list(vec![a.clone(), b.clone()]));
+            if *b != T::Nil && !matches!(b, T::Cons(_, _)) {
+                terms.push(T::cons(a.clone(), b.clone()));
+                terms.push(T::improper(vec![a.clone(), T::I(3)], b.clone()));
+            }
+        }
+    }
+    terms.push(T::list(vec![T::list(vec![T::list(vec![q()])]), T::list(vec![]), T::cons(T::I(1), T::cons(T::I(2), r()))]));
+    terms
+}
+
 /// C14: the clause grammar and the term grammar.
 pub fn c14_cases(quick: bool) -> Vec<SCase> {
     let x = T::V(2);
@@ -587,6 +607,23 @@ pub fn generate(id: &str, quick: bool, dir: &str) -> std::io::Result<usize> {
         writeln!(modrs, "    if let Some(r) = gen_{}::run(i, max) {{ return Some(r); }}", m).unwrap();
     }
     modrs.push_str("    None\n}\n");
+    // lterm! of every term of the term universe (C14 only; empty otherwise), in small functions
+    // (one huge vec! expression takes rustc minutes to type-check)
+    let lts = if id == "C14" { c14_lterm_terms() } else { vec![] };
+    let mut chunk_fns = vec![];
+    for (ci, chunk) in lts.chunks(12).enumerate() {
+        writeln!(modrs, "\n#[allow(unused)]\nfn lterms_{}(x: &super::prelude::LTerm<super::prelude::DU, super::prelude::DE>, y: &super::prelude::LTerm<super::prelude::DU, super::prelude::DE>, out: &mut Vec<super::prelude::LTerm<super::prelude::DU, super::prelude::DE>>) {{\n    use super::prelude::*;\n    let (x, y) = (x.clone(), y.clone());", ci).unwrap();
+        for t in chunk {
+            writeln!(modrs, "    let t: LTerm<DU, DE> = lterm!({});\n    out.push(t);", term(t, false)).unwrap();
+        }
+        modrs.push_str("}\n");
+        chunk_fns.push(ci);
+    }
+    modrs.push_str("\npub fn lterms(x: &super::prelude::LTerm<super::prelude::DU, super::prelude::DE>, y: &super::prelude::LTerm<super::prelude::DU, super::prelude::DE>) -> Vec<super::prelude::LTerm<super::prelude::DU, super::prelude::DE>> {\n    let mut out = vec![];\n    let _ = (x, y);\n");
+    for ci in chunk_fns {
+        writeln!(modrs, "    lterms_{}(x, y, &mut out);", ci).unwrap();
+    }
+    modrs.push_str("    out\n}\n");
     writeln!(modrs, "pub const ID: &str = {:?};\npub const QUICK: bool = {};\npub const CASES: usize = {};", id, quick, cs.len()).unwrap();
     std::fs::write(format!("{}/mod.rs", dir), modrs)?;
     std::fs::write(format!("{}/index.tsv", dir), index)?;
